@@ -35,6 +35,39 @@ fn main() -> ExitCode {
             "replay" => cmd_replay(&args[2..]),
             "selftest" => cmd_selftest(&args[2..]),
             "witnesses" => cmd_witnesses(),
+            "rawstats" => {
+                // acceptance statistics of the raw generators
+                let n: usize = args.get(2).and_then(|s| s.parse().ok()).unwrap_or(500);
+                for (name, which) in [("wio", 0), ("wrep", 1)] {
+                    let mut reasons: std::collections::BTreeMap<String, (usize, String)> = Default::default();
+                    let mut ok = 0;
+                    for i in 0..n {
+                        let mut rng = prng::Rng::new(prng::mix(&[seed_from_env(), i as u64, which]));
+                        let case = if which == 0 { raw::gen_wio(&mut rng) } else { raw::gen_wrep(&mut rng) };
+                        let mut c = case.clone();
+                        c.plan.clear();
+                        let r = raw::run_raw(&c, None);
+                        if r.accepted {
+                            ok += 1;
+                        } else {
+                            let o = r.outcome.short();
+                            // normalise positions and point at the offending line
+                            let key: String = o.split("pos:").next().unwrap_or("").chars().take(90).collect();
+                            let row: usize = o.split("row: ").nth(1).and_then(|x| x.split(',').next()).and_then(|x| x.trim().parse().ok()).unwrap_or(0);
+                            let line = case.text.replace("\r\n", "\n").lines().nth(row.saturating_sub(1)).unwrap_or("").to_string();
+                            let e = reasons.entry(key).or_insert((0, line));
+                            e.0 += 1;
+                        }
+                    }
+                    println!("{}: accepted {} of {}", name, ok, n);
+                    let mut v: Vec<_> = reasons.into_iter().collect();
+                    v.sort_by_key(|x| std::cmp::Reverse(x.1 .0));
+                    for (k, (c, line)) in v.iter().take(12) {
+                        println!("  {:4} {}   e.g. {}", c, k, line);
+                    }
+                }
+                0
+            }
             "fidelity" => {
                 let n: usize = args.get(2).and_then(|s| s.parse().ok()).unwrap_or(300);
                 let cfg = check::CheckCfg {
